@@ -12,7 +12,7 @@ if os.path.exists(RES):
 det = json.load(open(DET)) if os.path.exists(DET) else {}
 os.makedirs('/verif/seeded', exist_ok=True)
 for d in sorted(os.listdir('/tmp/seed')):
-    m = re.match(r'(C\d+)([bcd]?)-out$', d)
+    m = re.match(r'(C\d+)([b-z]?)-out$', d)
     if not m:
         continue
     for sub in sorted(os.listdir(os.path.join('/tmp/seed', d))):
